@@ -269,6 +269,12 @@ def special_d(rng, tier):
     for m in boundary_messages():
         for addr in ("min", "full"):
             out.append(S.d("Dns", G.render_dns(m, G.Layout(rng, mode="lib", addr=addr))[0]))
+    for rr in extreme_rrs():
+        m = ('Dns', 9, ('F', 1, 0, 0, 0, 0, 0, 0, 0, 0), [], [rr], [], [])
+        out.append(S.d("Dns", G.render_dns(m, G.Layout(rng, mode="lib"))[0]))
+        rn = G.Renderer(G.Layout(rng, mode="plain"))
+        rn.rr(rr)
+        out.append(S.d("RR", bytes(rn.buf)))
     return out
 
 
@@ -523,6 +529,12 @@ class C04(Prop):
             m = ('Dns', 7, ('F', 1, 0, 0, 0, 0, 0, 0, 0, 0), [], [rr], [], [])
             self.add(out, m, G.render_dns(m, G.Layout(rng, mode="lib"))[0])
         st.append(("rdata-relative-vs-absolute-offsets", out))
+        out = []
+        for rr in extreme_rrs():
+            m = ('Dns', 9, ('F', 1, 0, 0, 0, 0, 0, 0, 0, 0), [], [rr], [], [])
+            for mode in ("plain", "lib"):
+                self.add(out, m, G.render_dns(m, G.Layout(rng, mode=mode))[0])
+        st.append(("per-type-extremes", out))
         w_ = []
         for name, cs in st:
             w_ += ["W" + c[1:] for c in cs]
@@ -653,6 +665,8 @@ class C05(Prop):
              ("around-0x3FFF", straddle_cases(range(-48, 49, 4) if tier == "quick" else range(-48, 49))),
              ("hundreds-of-distinct-names-reused", ["E Dns " + G.canon(many_names_msg(k)) for k in (300, 400)]),
              ("names-equal-only-under-unicode-folding", ["E Dns " + G.canon(m) for m in merge_candidate_messages()]),
+             ("per-type-extremes", ["E Dns " + G.canon(('Dns', 9, ('F', 1, 0, 0, 0, 0, 0, 0, 0, 0), [], [r], [], [])) for r in extreme_rrs()]
+              + ["E RR " + G.canon(r) for r in extreme_rrs()]),
              ("big", ["E Dns " + G.canon(m) for m in big_messages(rng, [16300, 16500, 30000, 60000] if tier == "quick"
                                                                   else [16000, 16300, 16384, 16500, 30000, 50000, 60000, 64000])])]
         return s
@@ -676,6 +690,51 @@ def name_seq_msg(names, spacer=0, rng=None):
         an = [('RR', 10, ('N', []), 1, 0, ('G', [bytes(spacer)]))]
     return ('Dns', 1, ('F', 0, 0, 0, 0, 0, 0, 0, 0, 0), [], an,
             [('RR', 2, ('N', list(n)), 1, 0, ('G', [('N', list(n2))])) for n, n2 in zip(names[0::2], names[1::2] + [[]])], [])
+
+
+def extreme_rrs():
+    """for every plain record type: values with every field at the low end, at the high end and at a mixed setting
+    (integers 0 / all-ones / 0x80.., names root / 255 octets / ordinary, strings empty / 255 octets, remainders empty /
+    300 octets, enumerations first / last member) -- one record type among 46 is a likely place for a slip"""
+    long_name = [b"a" * 63, b"b" * 63, b"c" * 63, b"d" * 61]
+
+    def fld(k, v):
+        if k in ('8', '16', '32', '64'):
+            bits = int(k)
+            return [0, (1 << bits) - 1, 1 << (bits - 1)][v]
+        if k == 'name':
+            return ('N', [[], long_name, [b"mail", b"example", b"org"]][v])
+        if k == 'str':
+            return [b"", b"s" * 255, b"text"][v]
+        if k == 'rest':
+            return [b"", bytes(range(256)) + bytes(44), b"\x00"][v]
+        if k == 'utf8rest':
+            return [b"", ("\u00e9" * 150).encode(), b"ftp://x"][v]
+        if k == 'ip6':
+            return [bytes(16), bytes([255] * 16), bytes(range(16))][v]
+        if k.startswith('e:') or k.startswith('e8:'):
+            m = [int(x) for x in k.split(':')[1].split(',')]
+            return [m[0], m[-1], m[len(m) // 2]][v]
+        if k == 'digits':
+            return [b"", b"9" * 15, b"0"][v]
+        if k == 'hexopt':
+            return ('O', [None, b"fF" * 4, b""][v])
+        if k == 'gpos':
+            return [b"0", b"-123.456789", b"."][v]
+        if k == 'tag':
+            return [b"a", b"z9" * 7, b"issue"][v]
+        if k == 'strs':
+            return ('L', [[b""], [b"x" * 255, b"", b"y" * 255], [b"a", b"b"]][v])
+        if k == 'dnskeyflags':
+            return [0, 257, 256][v]
+        raise ValueError(k)
+    out = []
+    for tname, kinds in G.FMT.items():
+        for v in range(3):
+            cls = 1 if tname in G.NOCLASS else [1, 4, 3][v]
+            owner = [[], [b"x", b"example", b"org"], long_name][v]
+            out.append(('RR', G.TYPES[tname], ('N', owner), cls, [0, 0xFFFFFFFF, 0x80000000][v], ('G', [fld(k, v) for k in kinds])))
+    return out
 
 
 def merge_candidate_messages():
@@ -1086,6 +1145,24 @@ class C10(Prop):
                 mc = "E Dns " + G.canon(m)
                 first.append(mc)
                 self.pair[mc] = "E RR " + c
+        for r in extreme_rrs():
+            c = G.canon(r)
+            rr.append("E RR " + c)
+            srr.append("E S " + c)
+            m = ('Dns', 0, ('F', 0, 0, 0, 0, 0, 0, 0, 0, 0), [], [r], [], [])
+            mc = "E Dns " + G.canon(m)
+            first.append(mc)
+            self.pair[mc] = "E RR " + c
+        # stand-alone records have no message around them: RDATA up to the 16-bit RDLENGTH limit must encode whatever the
+        # total size (owner + 10 + RDATA may exceed 65,535)
+        longo = [b"a" * 63, b"b" * 63, b"c" * 63, b"d" * 61]
+        for ln in (65000, 65270, 65271, 65524, 65525, 65526, 65534, 65535):
+            for owner in ([], longo):
+                for r in (('RR', 10, ('N', owner), 1, 0, ('G', [bytes(ln)])),
+                          ('RR', 256, ('N', owner), 1, 0, ('G', [1, 2, b"u" * (ln - 4)])),
+                          ('RR', 44, ('N', owner), 1, 0, ('G', [1, 1, bytes(ln - 2)]))):
+                    rr.append("E RR " + G.canon(r))
+                    srr.append("E S " + G.canon(r))
         qs = []
         for _ in range(n // 4):
             q = ('Q', G.rnd_name(rng), rng.choice(G.QTYPES), rng.choice(G.QCLASSES))
